@@ -213,16 +213,18 @@ def run(repo: Repo, rep: Report, tier: str) -> None:
             while isinstance(par, ast.UnaryOp):
                 par = parent(par)
             if isinstance(par, ast.BoolOp):
-                # (a name that only selects *which* line is looked at - the index of `lines[i]` - is a position, not the text the decision is read from)
-                index_only = {x.id for sb in ast.walk(src) if isinstance(sb, ast.Subscript) for x in ast.walk(sb.slice) if isinstance(x, ast.Name)}
-                index_only -= {x.id for x in ast.walk(src) if isinstance(x, ast.Name) and not any(
-                    isinstance(sb, ast.Subscript) and any(y is x for y in ast.walk(sb.slice)) for sb in ast.walk(src))}
-                evidence = {x.id for x in ast.walk(t.comparators[0]) if isinstance(x, ast.Name)} | ({x.id for x in ast.walk(src) if isinstance(x, ast.Name)} - index_only)
+                # (a name that only selects *which* line is looked at - the index of `lines[i]` - is a position, not the text the decision is read
+                # from: it is neither evidence nor extra state; the same name used outside a subscript - `i > 0` - is state)
+                def _plain_names(e: ast.AST) -> set:
+                    in_slice = {id(y) for sb in ast.walk(e) if isinstance(sb, ast.Subscript) for y in ast.walk(sb.slice)}
+                    return {x.id for x in ast.walk(e) if isinstance(x, ast.Name) and id(x) not in in_slice}
+
+                evidence = {x.id for x in ast.walk(t.comparators[0]) if isinstance(x, ast.Name)} | _plain_names(src)
                 for other in par.values:
                     if other is t or any(y is t for y in ast.walk(other)):
                         continue
                     oi = FL.inline(other, stop=tuple(FL.params))
-                    extra += sorted({x.id for x in ast.walk(oi) if isinstance(x, ast.Name)} - evidence - {"self"})
+                    extra += sorted(_plain_names(oi) - evidence - {"self"})
             if extra:
                 rep.violation("R13.5", sub, f"{fn.fq}|nature|extra-condition|{extra[0]}",
                               f"`{norm(par)[:80]}`: besides the rendered signature the decision reads {extra}; the Protocol stub and the mock method of the same operation "
